@@ -368,6 +368,11 @@ def main():
     features.pop('case_digest_fold', None)
 
     # only violations of this property count (drivers run neighbouring oracles too)
+    # keys starting with 'harness:' are self-checks of the machinery: inconclusive, never a verdict on the library
+    for v in violations:
+        if str(v.get('key', '')).startswith('harness:'):
+            inconclusive.append('harness self-check failed: %s %s' % (v.get('key'), (v.get('detail') or '')[:300]))
+    violations = [v for v in violations if not str(v.get('key', '')).startswith('harness:')]
     own = [v for v in violations if v.get('prop') == prop]
     by_key = {}
     for v in own:
